@@ -241,6 +241,10 @@ def check(run):
     # the same programs under seeded random and PCT schedules (no script), plus the known scenarios several times
     free = []
     for s in pick(scripted, cap):
+        if s["kind"] == "pt" and has_re(s):
+            # how many references an "acqr" yields depends on the schedule (nested acquire only when the outer lookup misses):
+            # these programs are meaningful under their own script only
+            continue
         t = {k: v for k, v in s.items() if k != "script"}
         t["id"] = s["id"] + ":rand"
         t["seed"] = rng.randrange(1 << 30)
